@@ -303,7 +303,7 @@ def _update_local_references(rules):
             node.is_shadowing = counter.is_bound(node.name) or node.name in fields
 
         counter.previsit(node)
-        if node.is_reference and counter.is_bound(node.name):
+        if node.is_reference and (counter.is_bound(node.name) or node.name in fields):
             node.is_local = True
 
         # Also record the bound names that are used by inline Python code and
